@@ -14,6 +14,7 @@ def main():
     ap.add_argument("--units")
     ap.add_argument("--jobs", type=int)
     ap.add_argument("--list", action="store_true")
+    ap.add_argument("--update-ledger", action="store_true", help="maintenance only: record the clauses discharged by this run (run on the unchanged tree, thorough tier)")
     a = ap.parse_args()
     seed = int(os.environ.get("VERIF_SEED", "0") or 0)
     warnings.simplefilter("ignore")
@@ -40,6 +41,8 @@ def main():
         for u, _ in mod.UNITS:
             print(u)
         return 0
+    if a.update_ledger:
+        os.environ["PYVC_UPDATE_LEDGER"] = "1"
     return runner.run_property(a.prop, a.tier, seed, only_units=a.units.split(",") if a.units else None, jobs=a.jobs)
 
 
